@@ -29,6 +29,7 @@ TRUSTED_BASE = [
     'translator tools/py2coq.py + tools/gen.py (fail-closed symbolic interpreter of the Python AST); validated each run (a) by evaluating the generated `prog` terms INSIDE Coq (theories/FloatEval.v: generic list evaluator proved equal to the model semantics Expr.eval/run on the reals, run on PrimFloat by vm_compute) on the data of live objects and comparing every output binding and oracle residual equation with the implementation to 1e-9 relative, and (b) by an independent parse-back evaluation of the generated Coq text with numpy',
     'real arithmetic stands for float arithmetic; np.matmul(d_d_varphi, .) is modelled as (D_phi .)/d_varphi_d_phi',
     'committed tables/*.json (dimension / sign of each public attribute)',
+    'the real-analysis files theories/SpectralConv.v (C18), theories/NewtonConv.v (C20), props/C12_firstzero.v and props/C12_bridge.v (C12) import Coquelicot and the standard library\'s continuity_ab_min / MVT and therefore also depend on the standard-library axiom Classical_Prop.classic (excluded middle); no other obligation does',
     'checks whose obligations include theories/FloatOrder.v (C02, C12, C20) additionally rely on the standard library\'s specification axioms of primitive floats (Coq.Floats.FloatAxioms: ltb_spec, leb_spec, eqb_spec; in its RealSemantics module also abs_spec, Prim2SF_valid, SF2Prim_Prim2SF, Prim2SF_SF2Prim and, through Flocq/Reals, Classical_Prop.classic); the evidence field `axioms` lists what Print Assumptions reported',
 ]
 
@@ -40,7 +41,9 @@ def run(cmd, timeout=3600, **kw):
 def regenerate():
     """returns (ok, output)"""
     p = run([PY, os.path.join(HERE, 'gen.py'), '--repo', REPO])
-    return p.returncode == 0, (p.stdout + p.stderr).strip()
+    # digests of the hand-modelled functions (coq/gen/G_pins.v); a function that has disappeared is a translator error like any other
+    pp = run(['python3', os.path.join(HERE, 'gen_pins.py'), '--repo', REPO])
+    return p.returncode == 0 and pp.returncode == 0, (p.stdout + p.stderr + (pp.stdout + pp.stderr if pp.returncode else '')).strip()
 
 
 def harness(module, args, timeout=7200):
@@ -123,6 +126,11 @@ def reflective(prop, tier, seed, oracle_module, level_note, extra_obligations=No
             r = coqbuild.build_one(f, timeout=1800)
             ores.append(r)
             obl.append(f)
+        # source pins of the hand-modelled functions this property's theorems and correspondences rely on
+        pin_files = ['props/Pin_%s.v' % nm for nm in PINS_FOR.get(prop, [])]
+        for r in coqbuild.build_many(pin_files):
+            ores.append(r)
+        obl += pin_files
         gate = coqbuild.grep_gate()
         chk = None
         if tier == 'thorough' and all(r['ok'] for r in ores):
@@ -142,6 +150,9 @@ def reflective(prop, tier, seed, oracle_module, level_note, extra_obligations=No
     allowed = set(coqbuild.ALLOWED_AXIOMS)
     if 'FloatOrder' in (theory_obligations or []):
         allowed |= coqbuild.FLOAT_AXIOMS      # standard-library specification axioms of the primitive floats (Coq.Floats.FloatAxioms), FloatOrder.v only
+    # files that use Coquelicot / continuity_ab_min / MVT (real analysis over the standard library): Classical_Prop.classic, a standard-library axiom, is named in their trusted base
+    if any(o in CLASSIC_USERS for o in obl):
+        allowed |= {'Classical_Prop.classic', 'classic'}
     bad_ax = axioms - allowed
     if bad_ax:
         problems.append('unexpected axioms: ' + ', '.join(sorted(bad_ax)))
@@ -373,8 +384,8 @@ def check_C09(tier, seed):
                       'equal Frobenius norm, the cylindrical Frobenius norm equals grad_B_colon_grad_B for an orthonormal frame, L_grad_B = B0*sqrt(2/||grad B||^2). '
                       'Hypotheses: admissibility (sG^2 = spsi^2 = 1, non-vanishing curvature/etabar/B0/...), the sigma equation holds at the returned solution, orthonormal frame (C03). '
                       'NOT proved: size of the discrete trace / curl defect (discretisation), min_L_grad_B (spectral-minimum oracle).',
-                      gprops=False, seq_obligations=['props/C09_spec.v', 'props/C09.v', 'props/Pipeline_qsc.v'], ncorr=(8 if tier == 'quick' else 48),
-                      theorems=['C09_trace_free_h0', 'C09_trace_free_hN', 'C09_curl_h0', 'C09_curl_hN', 'C09_contraction_h0', 'C09_contraction_hN', 'C09_magnitude',
+                      gprops=False, seq_obligations=[['props/C09_spec.v', 'props/C13_spec.v'], ['props/C09.v', 'props/C13.v'], 'props/Pipeline_qsc.v'], ncorr=(8 if tier == 'quick' else 48),
+                      theorems=['C13.C13_run_bmag_r1_cyl', 'C13.C13_run_bmag_r1_boozer', 'C13.C13_run_bmag_r2_cyl', 'C13.C13_run_bmag_r2_boozer', 'C09_trace_free_h0', 'C09_trace_free_hN', 'C09_curl_h0', 'C09_curl_hN', 'C09_contraction_h0', 'C09_contraction_hN', 'C09_magnitude',
                                 'C09_cartesian_rotated', 'C09_frobenius_cartesian', 'C09_frobenius_frenet', 'C09_scale_length'])
 
 
@@ -478,7 +489,7 @@ def check_C14(tier, seed):
                       'at a poloidal angle by Frenet_to_cylindrical and by to_RZ are the prescribed r, r^2, r^3 harmonics of the untwisted coefficients and coincide. With the oracle premise "root_scalar returns a zero of the residual" '
                       'this is the clause "each returned (R,Z) is the position at phi0 whose own cylindrical angle is the target". Harness only: the 1e-12 / 1e-5 / nphi^-3 accuracy clauses, the to_Fourier round trip '
                       '(props/C14_fourier.v when present), agreement with the shipped Fortran files.',
-                      gprops=False, seq_obligations=['props/C14.v', 'props/C14_fourier.v', 'props/C14_weights.v'], theory_obligations=['TrigSum'],
+                      gprops=False, seq_obligations=[['props/C14.v', 'props/C07_lasym.v'], 'props/C14_fourier.v', 'props/C14_weights.v'], theory_obligations=['TrigSum'],
                       extra_harness=[('tie_fourier', [])],
                       theorems=['C14_fourier.roundtrip_2d', 'C14_fourier.roundtrip_R_lasym', 'C14_fourier.roundtrip_Z_lasym', 'C14_fourier.roundtrip_R_sym', 'C14_fourier.roundtrip_Z_sym',
                                 'C14_fourier.overresolved_mpol_fails', 'C14_weights.coefC_weight', 'C14_weights.coefS_weight', 'TrigSum.dirichlet_diff', 'C14_point_r1', 'C14_point_r2', 'C14_point_R_r1', 'C14_point_R_r2', 'C14_residual_r1', 'C14_residual_r2',
@@ -495,7 +506,7 @@ def check_C15(tier, seed):
                       'NTOR header = min(ntor, ntorMax) equals ntor iff ntor <= ntorMax. '
                       'Everything else is translation-validation level: the written file is parsed back with an independent namelist reader and compared with the object and the surface on every run '
                       '(NFP, LASYM, MPOL, NTOR cap, mode lines with VMEC\'s m*theta - n*nfp*phi convention, axis arrays to 8 digits, coefficient arrays left on the object, no state leaking through the mutable default argument).',
-                      gprops=False, seq_obligations=['props/C15.v', 'props/C14_fourier.v', 'props/C15_file.v'], theory_obligations=['VmecEmit', 'TrigSum'],
+                      gprops=False, seq_obligations=[['props/C15.v', 'props/C07_lasym.v'], 'props/C14_fourier.v', 'props/C15_file.v'], theory_obligations=['VmecEmit', 'TrigSum'],
                       extra_harness=[('tie_vmec', []), ('tie_fourier', [])], nthorough=120,
                       theorems=['C15_phiedge', 'C15_curtor', 'C15_pressure', 'C15_file.C15_file_surface_sym', 'C15_file.C15_file_surface_asym', 'C15_file.C15_file_ranges',
                                 'C15_file.C15_default_ranges', 'C15_file.C15_ntor_header', 'VmecEmit.read_RBC', 'VmecEmit.read_ZBS', 'VmecEmit.read_RBS', 'VmecEmit.read_ZBC',
@@ -506,10 +517,15 @@ def check_C18(tier, seed):
     return reflective('C18', tier, seed, 'oracle_C18',
                       'Proved: requesting an even nphi builds exactly the object of nphi + 1 (the constructor rule `if np.mod(nphi, 2) == 0: nphi += 1` is extracted from the current source by gen_obj.py and pinned; '
                       'everything computed is a function of the stored parameters: ObjModel). The convergence clauses (spectral decay of solved profiles, second-order convergence of grid extrema and of the trapezoid Boozer angle) '
-                      'are statements of numerical analysis about the exact solution of a nonlinear periodic ODE; they are exercised by the harness on resolution ladders gated by measured spectral tails and are NOT proved.',
-                      gprops=False, extra_obligations=['gprops/C16_layout.v'], seq_obligations=['props/C18.v'],
+                      'are statements of numerical analysis about the exact solution of a nonlinear periodic ODE; they are exercised by the harness on resolution ladders gated by measured spectral tails and are NOT proved for the solved profiles. '
+                      'What IS proved about "converges once the Fourier spectrum is resolved to that level" (theories/SpectralConv.v, over the exact kernels of DiffKernel / InterpKernel, any finite trigonometric sum of ANY degree K): '
+                      'on an n-point grid mode k is sampled as mode fold(n,k) <= n/2 (aliasing_identity); the spectral derivative differs from the true derivative at every node by at most |s| * sum_{k > n/2} (k + n/2)(|a_k| + |b_k|) '
+                      '(Dspec_aliasing_bound; sharp, attained by sin 2x on 3 points), the interpolant from the function at every real x by at most 2 * sum_{k > n/2} (|a_k| + |b_k|) (kinterp_aliasing_bound, attained), and the periodic trapezoid sum '
+                      'equals L*(a_0 + a_n + a_2n + ...) -- exactly the integral (is_RInt) when K < n (trapezoid_rule, trapezoid_exact_RInt); resolved to eps at n0 implies within eps at every larger odd n (Dspec_resolved_onwards, '
+                      'kinterp_resolved_onwards), and a band-limited profile gives an eventually constant sequence (band_limited_exact). Even-n variants included. The four RInt statements use Classical_Prop.classic through Coquelicot.',
+                      gprops=False, extra_obligations=['gprops/C16_layout.v'], seq_obligations=['props/C18.v'], theory_obligations=['TrigSum', 'DiffKernel', 'InterpKernel', 'SpectralConv'],
                       pre_cmds=[[PY, os.path.join(HERE, 'gen_obj.py'), '--repo', REPO]], nthorough=60,
-                      theorems=['C18_even_is_next_odd', 'C18_always_odd', 'C18_same_object'])
+                      theorems=['C18_even_is_next_odd', 'C18_always_odd', 'C18_same_object', 'SpectralConv.aliasing_identity', 'SpectralConv.Dspec_aliasing_bound', 'SpectralConv.Dspec_resolved_onwards', 'SpectralConv.kinterp_aliasing_bound', 'SpectralConv.interp_aliasing_bound', 'SpectralConv.trapezoid_rule', 'SpectralConv.trapezoid_exact_RInt', 'SpectralConv.band_limited_exact', 'DiffKernel.Dspec_exact_trigpoly', 'InterpKernel.interp_exact_trigpoly'])
 
 
 def check_C01(tier, seed):
@@ -548,12 +564,21 @@ C01_SEQ_R2 = ['props/C04_spec.v', 'props/C01_spec.v', 'props/C01_common.v', ['pr
 C01_SEQ = ['props/C04_spec.v', 'props/C01_spec.v', 'props/C01_common.v', ['props/C01_facts2.v', 'props/C01_facts3.v', 'props/C01_r1.v'], 'props/C01_r2base.v', ['props/C01_r2a.v', 'props/C01_r2b.v', 'props/C01_r2c.v', 'props/C01_r3a.v', 'props/C01_r3b.v'], 'props/C01_r2.v', 'props/C01_r3.v', 'props/C01.v']
 
 
+CLASSIC_USERS = {'theories/SpectralConv.v', 'theories/NewtonConv.v', 'props/C12_firstzero.v', 'props/C12_bridge.v'}
+# hand-modelled functions (tools/gen_pins.py) whose models carry theorems or oracle assumptions of each property
+PINS_FOR = {
+    'C02': ['newton', 'determine_helicity'], 'C20': ['newton', 'spectral_diff_matrix', 'fourier_interpolation', 'fourier_minimum'],
+    'C13': ['determine_helicity', 'convert_to_spline'], 'C12': ['r_singularity_selection'], 'C14': ['to_Fourier', 'get_boundary', 'convert_to_spline'],
+    'C15': ['to_vmec', 'to_Fourier'], 'C05': ['spectral_diff_matrix', 'determine_helicity', 'fourier_minimum'],
+    'C06': ['spectral_diff_matrix', 'determine_helicity', 'fourier_minimum', 'fourier_interpolation'], 'C07': ['spectral_diff_matrix', 'determine_helicity', 'fourier_minimum'],
+    'C03': ['spectral_diff_matrix', 'fourier_minimum'], 'C08': ['fourier_minimum'], 'C09': ['fourier_minimum'], 'C18': ['spectral_diff_matrix', 'fourier_interpolation'],
+}
 # checks whose obligations do not read the translated formula programs (object / effect / kernel models): the in-Coq float evaluation of the programs is not part of them
 NO_FLOAT_TIE = {'C16', 'C17', 'C18', 'C20'}
 # hand-written theories each check depends on (others are not built, so work in progress elsewhere cannot disturb it)
 NEEDS = {
     'C08': ['Expr', 'Equiv', 'Dim'], 'C07': ['Expr', 'Equiv', 'Sign', 'Shift', 'Shallow', 'DiffMat'], 'C05': ['Expr', 'Equiv', 'Sign', 'Shift', 'Shallow', 'DiffMat'],
-    'C04': ['Expr', 'Shallow', 'Series'], 'C11': ['Expr', 'Shallow', 'Series'], 'C13': ['Expr', 'Shallow', 'Quadrant', 'Winding'], 'C19': ['Expr', 'Equiv', 'Dim', 'Sign'], 'C17': ['Expr', 'Effects'], 'C12': ['Expr', 'Equiv', 'Dim', 'Sign', 'Shallow', 'RootSelect', 'Series', 'Newton', 'Bracket', 'FloatOrder'], 'C16': ['Expr', 'Effects', 'ObjModel'], 'C09': ['Expr', 'Shallow', 'Pipeline'], 'C03': ['Expr', 'Shallow', 'Pipeline'], 'C06': ['Expr', 'Equiv', 'Sign', 'Shift', 'Replicate', 'DiffMat', 'TrigSum', 'DiffKernel', 'Bracket', 'InterpKernel'], 'C14': ['Expr', 'Shallow', 'TrigSum'], 'C15': ['Expr', 'Shallow', 'TrigSum', 'VmecEmit'], 'C18': ['Expr', 'ObjModel'], 'C10': ['Expr', 'Shallow'], 'C01': ['Expr', 'Shallow', 'Series'], 'C02': ['Expr', 'Shallow', 'Newton', 'RootSelect', 'Bracket', 'FloatOrder'],
+    'C04': ['Expr', 'Shallow', 'Series'], 'C11': ['Expr', 'Shallow', 'Series'], 'C13': ['Expr', 'Shallow', 'Quadrant', 'Winding'], 'C19': ['Expr', 'Equiv', 'Dim', 'Sign'], 'C17': ['Expr', 'Effects'], 'C12': ['Expr', 'Equiv', 'Dim', 'Sign', 'Shallow', 'RootSelect', 'Series', 'Newton', 'Bracket', 'FloatOrder'], 'C16': ['Expr', 'Effects', 'ObjModel'], 'C09': ['Expr', 'Shallow', 'Pipeline'], 'C03': ['Expr', 'Shallow', 'Pipeline'], 'C06': ['Expr', 'Equiv', 'Sign', 'Shift', 'Replicate', 'DiffMat', 'TrigSum', 'DiffKernel', 'Bracket', 'InterpKernel'], 'C14': ['Expr', 'Shallow', 'TrigSum'], 'C15': ['Expr', 'Shallow', 'TrigSum', 'VmecEmit'], 'C18': ['Expr', 'ObjModel', 'Equiv', 'Sign', 'Shift', 'Replicate', 'DiffMat', 'Bracket', 'TrigSum', 'DiffKernel', 'InterpKernel', 'EvenKernel', 'SpectralConv'], 'C10': ['Expr', 'Shallow'], 'C01': ['Expr', 'Shallow', 'Series'], 'C02': ['Expr', 'Shallow', 'Newton', 'RootSelect', 'Bracket', 'FloatOrder'],
     'C20': ['Expr', 'Equiv', 'Sign', 'Shift', 'Replicate', 'DiffMat', 'Newton', 'Bracket', 'RootSelect', 'TrigSum', 'DiffKernel', 'InterpKernel', 'EvenKernel', 'FloatOrder', 'NewtonConv'],
 }
 CHECKS = {'C01': check_C01, 'C10': check_C10, 'C06': check_C06, 'C14': check_C14, 'C15': check_C15, 'C18': check_C18, 'C12': check_C12, 'C16': check_C16, 'C17': check_C17, 'C03': check_C03, 'C19': check_C19, 'C09': check_C09, 'C13': check_C13, 'C11': check_C11, 'C02': check_C02, 'C20': check_C20, 'C04': check_C04, 'C08': check_C08, 'C07': check_C07, 'C05': check_C05}
